@@ -1,6 +1,6 @@
 (* C12/Witness.v — non-vacuity of the hypotheses of Properties.v and concrete instances
    (all by computation). *)
-From Verif Require Import Common.Base C12.Model C12.Proofs1 C12.Proofs2 C12.Proofs3 C12.Proofs4 C12.Proofs5.
+From Verif Require Import Common.Base C12.Model C12.Proofs1 C12.Proofs2 C12.Proofs3 C12.Proofs4 C12.Proofs5 C12.Proofs7.
 From Coq Require Import Ascii.
 Require Coq.Strings.String.
 Import Coq.Strings.String.StringSyntax.
@@ -17,6 +17,8 @@ Definition tbl : list (str * retrieved) :=
     (L"P", mkRet (CStr (L"A")) None);
     (L"M", mkRet (CMap [(L"a", CInt 1)]) None);
     (L"R", mkRet (CStr (L"<${env:A}>")) None);
+    (L"S", mkRet (CStr (L"[${env:R}$$${R}]")) None);
+    (L"DOL", mkRet (CStr (L"$")) None);
     (L"CY", mkRet (CStr (L"${env:CY}")) None);
     (L"CA", mkRet (CStr (L"${env:CB}")) None);
     (L"CB", mkRet (CStr (L"b${env:CA}")) None) ].
@@ -84,7 +86,7 @@ Definition ex_ts : list tok :=
    TChar "e"%char; TClose; TRef (L"env:N")].
 
 Lemma good_name n :
-  name_ok n = true -> ref_ok env n = true -> has_char cDollar (vals n) = false ->
+  name_ok n = true -> ref_ok env n = true ->
   (exists ret, expand_uri env retr (ref_text n) = Ok ret /\ as_string ret = Some (vals n)) ->
   ref_good env retr vals n.
 Proof. intros. unfold ref_good. auto. Qed.
@@ -100,6 +102,9 @@ Proof.
          | |- True => exact I
          end.
 Qed.
+Example ex_ts_plain : plain vals ex_ts.
+Proof. intros n Hn. unfold ex_ts in Hn. cbn [In] in Hn.
+  repeat (destruct Hn as [Hn|Hn]; [try discriminate; inversion Hn; subst; reflexivity|]). contradiction. Qed.
 Example ex_ts_anchored : anchored vals ex_ts.
 Proof. left. reflexivity. Qed.
 Example ex_ts_text : flatten ex_ts = L"x${env:A}$$${A}$y}$${e}${env:N}".
@@ -163,4 +168,57 @@ Definition cv_len (v : cv) : nat := match v with CStr s => length s | CExp _ o =
 Example ex_exponential_growth :
   map (fun k => option_map cv_len (iter_expand k (CStr (L"${env:X}")))) [2; 3; 4; 5; 8]
   = [Some 32; Some 64; Some 128; Some 256; Some 2048].
+Proof. vm_compute. reflexivity. Qed.
+
+(* ---- nested provider texts: hypotheses of expansion_refines_tokens_nested are satisfiable --------------- *)
+Definition chars (s : String.string) : list tok := lit_tokens (L s).
+Definition ntxt (n : str) : list tok :=
+  if str_eqb n (L"env:A") || str_eqb n (L"A") then chars "va"
+  else if str_eqb n (L"env:R") || str_eqb n (L"R") then [TChar "<"%char; TRef (L"env:A"); TChar ">"%char]
+  else if str_eqb n (L"env:S") then [TChar "["%char; TRef (L"env:R"); TEsc; TRef (L"R"); TChar "]"%char]
+  else [].
+Definition ex_deep : list tok := [TChar "x"%char; TRef (L"env:S"); TDollar; TChar "."%char; TRef (L"env:A"); TRef (L"env:S")].
+
+Ltac wf_tac :=
+  cbn [wf_from];
+  repeat match goal with
+         | |- _ /\ _ => split
+         | |- ref_good _ _ _ _ => unfold ref_good; split; [reflexivity|split; [reflexivity|eexists; split; vm_compute; reflexivity]]
+         | |- _ = _ => reflexivity
+         | |- _ -> _ <> _ => discriminate
+         | |- True => exact I
+         end.
+
+Example ex_deep_wf : wf env retr (nval ntxt) ex_deep.
+Proof. unfold wf, ex_deep. wf_tac. Qed.
+Lemma gA d : tgood env retr ntxt (S d) (TRef (L"env:A")).
+Proof.
+  cbn [tgood]. change (ntxt (L"env:A")) with (chars "va"). split; [|split].
+  - vm_compute. repeat split; try exact I; intros; discriminate.
+  - reflexivity.
+  - vm_compute. destruct d; repeat constructor.
+Qed.
+Lemma gR d : tgood env retr ntxt (S (S d)) (TRef (L"env:R")) /\ tgood env retr ntxt (S (S d)) (TRef (L"R")).
+Proof.
+  split; cbn [tgood];
+    (change (ntxt _) with [TChar "<"%char; TRef (L"env:A"); TChar ">"%char]; split; [|split];
+     [wf_tac | reflexivity | repeat constructor; apply gA]).
+Qed.
+Lemma gS d : tgood env retr ntxt (S (S (S d))) (TRef (L"env:S")).
+Proof.
+  cbn [tgood]. change (ntxt (L"env:S")) with [TChar "["%char; TRef (L"env:R"); TEsc; TRef (L"R"); TChar "]"%char].
+  split; [|split]; [wf_tac | reflexivity | repeat constructor; apply gR].
+Qed.
+Example ex_deep_good : good env retr ntxt 3 ex_deep.
+Proof. unfold good, ex_deep. repeat constructor; first [apply gS | apply (gA 2)]. Qed.
+Example ex_deep_cost : cost ntxt 3 ex_deep = 11.
+Proof. vm_compute. reflexivity. Qed.
+Example ex_deep_text : flatten ex_deep = L"x${env:S}$.${env:A}${env:S}".
+Proof. reflexivity. Qed.
+Example ex_deep_mean : mean ntxt 3 ex_deep = L"x[<va>$<va>]$.va[<va>$<va>]".
+Proof. vm_compute. reflexivity. Qed.
+Example ex_deep_resolved : resolve_string env retr (flatten ex_deep) = Ok (CStr (mean ntxt 3 ex_deep)).
+Proof. vm_compute. reflexivity. Qed.
+(* why provider texts must not end with a lone '$': it forms a NEW reference with what follows in the host *)
+Example ex_formed_reference : rs "${env:DOL}{env:A}" = Ok (CStr (L"va")).
 Proof. vm_compute. reflexivity. Qed.
